@@ -82,6 +82,7 @@ HAND = [
     STRUCT(F("bad", DUR), F("ok", INT(8))), STRUCT(F("bad", DUR, fmt="unix"), F("bad2", INT(8), fmt="sec")), STRUCT(F("bad", TIME, fmt="sec"), F("l", SLICE(DUR), fmt="sec")),
     STRUCT(F("a", INT(8)), F("b", STR, omitempty=True), fb=ANY), STRUCT(F("Ab", INT(8), casing=1, omitzero=True), fb=INT(8)),
     STRUCT(fb=SLICE(INT(8))), STRUCT(F("p", PTR(BOOL)), fb=MAP(STR, INT(8))), PTR(STRUCT(F("a", BOOL), fb=STR)),
+    STRUCT(fb=PTR(MAP(STR, INT(8)))), STRUCT(F("a", BOOL), fb=PTR(STRUCT(F("x", INT(8)), F("y", INT(8))))), STRUCT(fb=STRUCT(F("x", INT(8)), F("y", PTR(INT(8))))),
     BYTES, BARR(0), BARR(2), SLICE(BYTES), MAP(STR, BYTES), PTR(BARR(1)),
     STRUCT(F("b", BYTES, omitempty=True), F("z", BYTES, omitzero=True), F("a", BARR(2), omitzero=True), F("e", BARR(0), omitempty=True), F("s", BYTES, string=True, omitempty=True)),
     STRUCT(F("n", FLOAT, string=True), F("p", PTR(INT(16, False)), string=True), F("s", STR, string=True), F("b", BOOL, string=True)),
